@@ -142,6 +142,8 @@ def run(repo: Repo, L: Ledger, tier: str):
         bad = None
         for r in finals:
             n_paths += 1
+            if not isinstance(r.heap.get(("self", "rows")), GhostList):
+                raise AnalysisError(f"{m.short}: self.rows is rebound to a value outside the list model: no verdict")
             try:
                 d = Q(r) - q0
             except NotNumeric:
@@ -481,7 +483,37 @@ def _r6(repo, L, ovr, frag, iters):
             v = ex.get_attr(stt, Sym("self", ovr), fig, None, df)
             do_vals.setdefault(k, set()).add(repr(as_lin(v)))
         wi_vals = {}
+        import re as _re
+
         for r in wfin:
+            # a result read back from a memo in the object's state: when the path has compared the memo with the current rows /
+            # span before using it, whether it can be stale is not decided here
+            for sym in set(_re.findall(r"call:self\.[\w\.]+#\d+", repr(r.ret))):
+                for f_ in r.pc:
+                    txt = repr(f_)
+                    if sym in txt and not _re.fullmatch(r"!?<\$?" + _re.escape(sym) + r"(\[\d+\])? is Const\(None\)>", txt):
+                        raise AnalysisError(f"OverlapResult.{what_if}: the result is read from a memo ('{sym}') that the path validates against the current state ({txt[:70]}): staleness not decided")
+                # an unvalidated memo is sound exactly when every operation that changes the rows or the span drops it
+                m_attr = _re.match(r"call:self\.(\w+)\.", sym)
+                if m_attr:
+                    attr_ = m_attr.group(1)
+                    direct_, _all = mutators(repo, ovr)
+                    clearing = set()
+                    for nm_, mm_ in ovr.methods.items():
+                        for n_ in walk_shallow(mm_.node):
+                            if isinstance(n_, ast.Call) and isinstance(n_.func, ast.Attribute) and norm(n_.func.value) == f"self.{attr_}" and n_.func.attr in ("clear", "pop", "popitem"):
+                                clearing.add(nm_)
+                            if isinstance(n_, ast.Assign) and any(norm(t_) == f"self.{attr_}" for t_ in n_.targets):
+                                clearing.add(nm_)
+                    missing = sorted(set(direct_) - clearing)
+                    if missing:
+                        L.fail(
+                            "R6", f"OverlapResult.{what_if}:memo",
+                            f"the what-if figure is kept in self.{attr_} and returned without being checked against the current rows and span, but {', '.join(missing)} change{'s' if len(missing) == 1 else ''} the rows / span without dropping it: after such a call the what-if no longer equals what the removal would give",
+                            repo.find_method(ovr, missing[0]).loc(), witness={"history": f"{what_if}(); {missing[0]}(...); {what_if}()"},
+                        )
+                        return
+                    raise AnalysisError(f"OverlapResult.{what_if}: the result is read from a memo (self.{attr_}) dropped by every operation of the class that changes rows or span; writers outside the class are not tracked: not decided")
             gaps = sum(1 for f in r.pc if f.kind == "atom" and f.a.startswith("isinstance(rows@") and "Gap" in f.a)
             try:
                 wi_vals.setdefault(gaps, set()).add(repr(as_lin(r.ret)))
